@@ -61,7 +61,7 @@ BUILT = {
          "For each dimensionality the listed units must equal the dump's non-alias units of that exponent vector under their categories, and every factorization must multiply out; answers must not depend on the spelling.",
          "factorize explored up to a complexity bound", "3/C17"),
 
- "C18": ("fault_enumeration", "exhaustive enumeration of fault sequences (10 request kinds, length <= 2/3, two gap lengths), idle-gap sequences (normal / slow-but-legal / long idle / short idle) and memory sequences (normal / legal 30 MiB fill / growth refused by the limit and reported by the request) against the real Sandbox with real child processes, one parent process per sequence",
+ "C18": ("fault_enumeration", "exhaustive enumeration of fault sequences (10 request kinds, length <= 2/3, two gap lengths), idle-gap sequences (normal / slow-but-legal / long idle / short idle) and memory sequences (normal / legal 30 MiB fill / growth refused by the limit and reported by the request / 20 MiB reply, each ending with a 46 MiB fill) against the real Sandbox with real child processes, one parent process per sequence",
          "Every sequence over {normal, panic, time-limit overrun (10x and 1.5x), memory exhaustion, child exit, large payload, long non-ASCII panic report, oversized request, oversized reply} up to the length bound, followed by two normal requests, at two inter-request gaps, every sequence of legal requests and idle pauses around the time limit, and every sequence of memory-heavy legal requests, is executed against the real parent/child code; replies are matched to requests by unique operands and process ids are tracked.",
          "real time: 700 ms service limit, anomalies re-run once before being believed; sequences longer than the bound are out of reach", "3/C18"),
  "C19": ("model_checking", "explicit-state BFS over allocator operation histories on the real Alloc with byte- and 8-aligned layouts (sequential) plus loom exploration of every interleaving of 2-3 threads on the allocator source derived textually from the repository file",
